@@ -267,6 +267,19 @@ func (h Header) sortedKeyValues() (kvs []keyValues, hs *headerSorter) {
 }
 
 // readLine 读取一行
+// maxContentLength 消息体的最大长度；超过则拒绝，避免按对端声明的长度无限制分配缓冲
+const maxContentLength = 4 * 1024 * 1024
+
+// readBody 读取 Content-Length 指定长度的消息体
+func readBody(r *bufio.Reader, cl int) (string, error) {
+	if cl > maxContentLength {
+		return "", &badStringError{"Content-Length over the maximum length: ", strconv.Itoa(cl)}
+	}
+	body := make([]byte, cl)
+	io.ReadFull(r, body)
+	return string(body), nil
+}
+
 func readLine(r *bufio.Reader) (string, error) {
 	const maxLineLenght = 16 * 1024
 
@@ -284,9 +297,9 @@ func readLine(r *bufio.Reader) (string, error) {
 		if !more {
 			break
 		}
-		// if len(line) >maxLineLenght {
-		// 	return string(line),errors.New("line over the maximum length")
-		// }
+		if len(line) > maxLineLenght {
+			return "", &badStringError{"line over the maximum length: ", string(line[:64])}
+		}
 	}
 	return string(line), nil
 }
